@@ -178,3 +178,33 @@ def partial_children_ids(tree):
 
     walk(tree)
     return out
+
+
+def describe(x):  # noqa: C901
+    """Process-independent canonical description of a tree whose leaves are ints/strs.
+
+    Includes exact types, dict key order (as iterated), deque maxlen, defaultdict factory name,
+    namedtuple / struct-sequence class name and custom metadata.
+    """
+    t = type(x)
+    if x is None:
+        return 'None'
+    if t is tuple:
+        return '(' + ','.join(describe(c) for c in x) + ',)'
+    if t is list:
+        return '[' + ','.join(describe(c) for c in x) + ']'
+    if t is deque:
+        return f'deque<{x.maxlen}>[' + ','.join(describe(c) for c in x) + ']'
+    if t in (dict, OrderedDict, defaultdict):
+        head = {dict: 'dict', OrderedDict: 'odict', defaultdict: 'ddict'}[t]
+        if t is defaultdict:
+            head += f'<{getattr(x.default_factory, "__qualname__", x.default_factory)}>'
+        return head + '{' + ','.join(f'{k!r}:{describe(v)}' for k, v in x.items()) + '}'
+    if issubclass(t, tuple) and (_is_nt(t) or _is_ss(t)):
+        return f'{t.__module__}.{t.__qualname__}(' + ','.join(describe(c) for c in x) + ')'
+    if t is optree.functools.partial:
+        return f'partial<{getattr(x.func, "__qualname__", type(x.func).__name__)}>(' + describe(x.args) + ';' + describe(x.keywords) + ')'
+    if getattr(t, '_same_parts', None) is not None:
+        m, ch = x._same_parts()
+        return f'{t.__name__}<{m!r}>(' + ','.join(describe(c) for c in ch) + ')'
+    return repr(x)
